@@ -114,6 +114,44 @@ func vwScheme(kind int, alg int64) (string, crypto.Hash, bool) {
 	return fam, h, true
 }
 
+// vwSpecSigned is the reference predicate "sig is the signature by key over the
+// Sig_structure of (protected {1: alg}, payload)" - written from RFC 8152, independent
+// of the repository's Sign1.Verify.
+func vwSpecSigned(kind int, key crypto.PublicKey, alg int64, payloadEnc, sig []byte) bool {
+	scheme, hh, ok := vwScheme(kind, alg)
+	if !ok {
+		return false
+	}
+	digest := verif.HashOf(hh, vwSigStructure(vwProtected(alg), payloadEnc))
+	return verif.BytesEq(sig, verif.IdealSig(scheme, key, digest))
+}
+
+// vwSpecEntries asserts the reference predicate of an entry chain: every entry is
+// signed by the previous owner key and carries H(GUID||DeviceInfo) and the hash of
+// its predecessor (header||MAC for the first). Independent of VerifyEntries.
+func vwSpecEntries(what string, h *vwHdr, mac protocol.Hmac, entries []vwEntry) {
+	if len(entries) == 0 {
+		return
+	}
+	hdrEnc := vwMust(cbor.Marshal(&h.hdr))
+	alg0 := entries[0].tag.Payload.Val.PreviousHash.Algorithm
+	verif.Assert(alg0 == protocol.Sha256Hash || alg0 == protocol.Sha384Hash, what+" => the chain uses SHA-256 or SHA-384")
+	hdrInfo := append(append([]byte{}, h.guid[:]...), h.hdr.DeviceInfo...)
+	macEnc := vwMust(cbor.Marshal(mac))
+	prev := append(append([]byte{}, hdrEnc...), macEnc...)
+	kind, key := h.mk, h.mfgPub
+	for _, e := range entries {
+		p := e.tag.Payload.Val
+		payloadEnc := vwMust(cbor.Marshal(p))
+		verif.Assert(vwSpecSigned(kind, key, e.alg, payloadEnc, e.sig), what+" => every entry is signed by the previous owner key over its protected header and payload")
+		verif.Assert(p.HeaderHash.Algorithm == alg0, what+" => header hash algorithm is the chain's")
+		verif.Assert(verif.BytesEq(p.HeaderHash.Value, vwHashOf(alg0, hdrInfo)), what+" => every entry's header hash = H(GUID || device info)")
+		verif.Assert(verif.BytesEq(p.PreviousHash.Value, vwHashOf(alg0, prev)), what+" => every entry's previous hash = H(header || MAC) resp. H(previous entry)")
+		prev = vwMust(cbor.Marshal(e.tag.Tag()))
+		kind, key = e.nextKind, e.nextPub
+	}
+}
+
 var vwAlgs = []int64{int64(cose.ES256Alg), int64(cose.ES384Alg), int64(cose.RS256Alg), int64(cose.PS256Alg), 0}
 var vwOddAlgs = []protocol.HashAlg{protocol.Sha256Hash, protocol.Sha384Hash, protocol.HmacSha256Hash, protocol.HmacSha384Hash, 0, 1, -1, 99}
 var vwHashAlgs = []protocol.HashAlg{protocol.Sha256Hash, protocol.Sha384Hash, protocol.HmacSha256Hash, 0}
